@@ -189,6 +189,9 @@ var exprs = [][2]string{
 	{"nomatch", ""},
 	{"drop1", "drop1"},
 	{"dropkeep::operator\\(\\)|drop.*", ""},
+	{"drop(1|2|keep)", ""},
+	{"(drop1|user9|drop2)|nomatch", "drop(0|1|3)"},
+	{"dr[o|p]+(1|2|3)", ""},
 }
 
 func genProfile(r *rand.Rand) *profile.Profile {
@@ -201,6 +204,28 @@ func genProfile(r *rand.Rand) *profile.Profile {
 	var locs []*profile.Location
 	// ids are distinct but neither dense nor ordered (values just above the table size included)
 	lid := r.Perm(2*nl + 1)
+	if r.Intn(4) == 0 {
+		// ids of a profile that once had many more locations: any values up to a few hundred
+		for i := range lid {
+			lid[i] = []int{lid[i], 31 + lid[i], 32*lid[i] + 1, 61 + 31*lid[i]}[r.Intn(4)]
+		}
+		seenID := map[int]bool{}
+		for i := range lid {
+			for seenID[lid[i]] {
+				lid[i]++
+			}
+			seenID[lid[i]] = true
+		}
+	}
+	arith := nl >= 3 && r.Intn(8) == 0
+	if arith {
+		// ids 1, 2 and 32: two stacks of equal depth over them, (1 32) and (2 1), agree in every
+		// simple positional checksum
+		lid[0], lid[1], lid[2] = 0, 1, 31
+		for i := 3; i < nl; i++ {
+			lid[i] = 40 + i
+		}
+	}
 	for i := 0; i < nl; i++ {
 		l := &profile.Location{ID: uint64(lid[i] + 1), Address: uint64(0x1000 + i)}
 		for j, n := 0, r.Intn(4); j < n; j++ {
@@ -226,6 +251,9 @@ func genProfile(r *rand.Rand) *profile.Profile {
 			s.NumLabel = map[string][]int64{"bytes": {int64(r.Intn(100))}}
 		}
 		p.Sample = append(p.Sample, s)
+	}
+	if arith {
+		p.Sample = append(p.Sample, &profile.Sample{Value: []int64{7, 1}, Location: []*profile.Location{locs[0], locs[2]}}, &profile.Sample{Value: []int64{8, 1}, Location: []*profile.Location{locs[1], locs[0]}})
 	}
 	return p
 }
